@@ -200,6 +200,34 @@ static std::string handle(const std::string& cmd, const std::string& args) {
          std::to_string(ad.v[0].hkl[2]) + " " + decode(std::arg(ad.v[0].value) * 180 / PI);
     return s;
   }
+  if (cmd == "expand") {
+    // model correspondence: one reflection (PHI = 5 deg) through Mtz::expand_to_p1
+    // args: row h k l -> for each appended row: h k l k24 (phase = 5 + 15*k24 degrees)
+    const SpaceGroup& sg = spacegroup_tables::main[to_ll(w.at(0))];
+    Miller h = {{(int) to_ll(w.at(1)), (int) to_ll(w.at(2)), (int) to_ll(w.at(3))}};
+    Mtz mtz;
+    init_merged(mtz, sg);
+    std::vector<float> r(NCOL, 0.f);
+    r[cH] = (float) h[0]; r[cK] = (float) h[1]; r[cL] = (float) h[2];
+    r[cF] = 5; r[cPHI] = 5.0f; r[cFP] = 1; r[cFM] = 2; r[cDANO] = -1;
+    mtz.set_data(r.data(), r.size());
+    mtz.expand_to_p1();
+    std::string s = std::to_string(mtz.nreflections - 1);
+    for (size_t n = 0; n < mtz.data.size(); n += NCOL) {
+      const float* o = &mtz.data[n];
+      double p = std::fmod(o[cPHI] + 720.0, 360.0);
+      int kk = -1;
+      for (int k = 0; k < 24; ++k)
+        if (angdiff(p, 5.0 + 15 * k) < 0.01) kk = k;
+      if (n == 0) {   // the original row must be untouched
+        if ((int) o[cH] != h[0] || (int) o[cK] != h[1] || (int) o[cL] != h[2] || kk != 0) return "bad-first-row";
+        continue;
+      }
+      s += " " + std::to_string((int) o[cH]) + " " + std::to_string((int) o[cK]) + " " + std::to_string((int) o[cL]) +
+           " " + std::to_string(kk);
+    }
+    return s;
+  }
   if (cmd == "o_ensure" || cmd == "o_asudata" || cmd == "o_expand") {
     // args: row tnt seed natoms nrefl hmax
     const SpaceGroup& sg = spacegroup_tables::main[to_ll(w.at(0))];
